@@ -165,7 +165,10 @@ impl<'a> Ctx<'a> {
                     out.insert(name, pv);
                 }
             }
-            Some(_) => self.dc("_sd is not an array"),
+            // §8.1: only an `_sd` member that is an array of strings holds digests; step 3.4
+            // removes every `_sd` key. A string, number, object or null there discloses nothing:
+            // the result is the object without it (the verifier may also refuse).
+            Some(_) => {}
         }
         Value::Object(out)
     }
@@ -214,13 +217,12 @@ pub fn process(payload: &Map<String, Value>, l: &[String]) -> (Expect, Processed
     let mut d: BTreeMap<String, (String, Value)> = BTreeMap::new();
     let mut undecodable = 0;
     let mut repeated = 0;
-    let mut seen_strings: Vec<&String> = Vec::new();
+    let mut seen_strings: std::collections::HashSet<&String> = std::collections::HashSet::new();
     for s in l {
-        if seen_strings.contains(&s) {
+        if !seen_strings.insert(s) {
             repeated += 1;
             continue;
         }
-        seen_strings.push(s);
         match decode_disclosure(s) {
             Some(v) => {
                 d.insert(digest(s), (s.clone(), v));
